@@ -8,13 +8,18 @@
       `pypyr.aio.subproc.Commands.run/_run`, `pypyr.steps.dsl.cmdasync.AsyncCmdStep.run_step`
       (steps `cmds`, `shells`): concurrent lanes, serial sub-lists, aggregation.
 
-  A spawned process is *scripted*: it has an identity, an exit code and the text
-  it writes to stdout / stderr. The operating system's scheduling of the
-  concurrent steps is an explicit input: a *schedule* (a list of lane indices;
-  entry `i` means "the process lane `i` is currently running exits now").
+  A command is *scripted*: it has an identity and one of three kinds of outcome:
+    * it cannot be started at all (`spawn = some k`): `shlex.split` / `subprocess.run` /
+      `asyncio.create_subprocess_*` raises (`FileNotFoundError`: no such executable or no such `cwd`;
+      `PermissionError`: file not executable; `ValueError`: the instruction cannot be split into
+      arguments) — no process exists, nothing is written;
+    * it runs and exits with status `code : Int`: `0`, a positive exit code, or a **negative** one
+      (`-N`: killed by signal `N`), having written `out` / `err`.
+  The operating system's scheduling of the concurrent steps is an explicit input: a *schedule*
+  (a list of lane indices; entry `i` means "the process lane `i` is currently running exits now").
 
-  Not modelled: signals / negative return codes, executables that cannot be
-  spawned, `cwd`, output redirection to files, encodings other than ASCII text.
+  Not modelled: output redirection to files, encodings other than ASCII text; *where* a spawn error
+  comes from (executable, cwd, quoting) is the harness's business — the model only needs its kind.
 
   No imports beyond `Val`: the driver must link.
 -/
@@ -22,13 +27,30 @@ import PypyrModel.Val
 
 namespace Pypyr.Cmd
 
-/-- One scripted process (one `subprocess.run` / `create_subprocess_*`). -/
-structure Proc where
-  id   : Nat
-  code : Nat
-  out  : String
-  err  : String
+/-- Why a command could not be started (the exception type raised by the spawn call). -/
+inductive SpawnKind where
+  | notFound      -- FileNotFoundError (executable or cwd missing)
+  | permission    -- PermissionError (not executable)
+  | badArgs       -- ValueError out of shlex.split (no closing quotation)
   deriving Repr, DecidableEq, Inhabited
+
+/-- One scripted instruction (one `subprocess.run` / `create_subprocess_*`).
+    `code`, `out`, `err` mean something only when `spawn = none`. -/
+structure Proc where
+  id    : Nat
+  spawn : Option SpawnKind
+  code  : Int
+  out   : String
+  err   : String
+  deriving Repr, DecidableEq, Inhabited
+
+/-- The serial loop this instruction belongs to does not go on after it: it could not be started,
+    or its exit status is non-zero (`if result.returncode:` / `check_returncode()` — positive **or
+    negative**). -/
+def Proc.stops (p : Proc) : Bool := p.spawn.isSome || p.code != 0
+
+/-- A process existed. -/
+def Proc.ran (p : Proc) : Bool := p.spawn.isNone
 
 /-- What `SubprocessResult.stdout` / `.stderr` can hold. -/
 inductive Out where
@@ -40,18 +62,25 @@ inductive Out where
 /-- `pypyr.subproc.SubprocessResult` (the `cmd` it carries is identified by `id`). -/
 structure Result where
   id     : Nat
-  code   : Nat
+  code   : Int
   stdout : Out
   stderr : Out
   deriving Repr, DecidableEq, Inhabited
 
-/-- The error a failed command gives rise to: `subprocess.CalledProcessError`
-    (serial steps) or `pypyr.errors.SubprocessError` (inside the `MultiError` of the
-    concurrent steps). Both carry the command and its return code. -/
-structure CmdErr where
-  id   : Nat
-  code : Nat
+/-- The error a failed command gives rise to.
+    `exit`: `subprocess.CalledProcessError` (serial steps) or `pypyr.errors.SubprocessError` (inside the
+    `MultiError` of the concurrent steps); both carry the command and its return code.
+    `spawn`: the `OSError` / `ValueError` of a command that could not be started, as raised. -/
+inductive CmdErr where
+  | exit (id : Nat) (code : Int)
+  | spawn (id : Nat) (kind : SpawnKind)
   deriving Repr, DecidableEq, Inhabited
+
+/-- The error of an instruction that `stops`. -/
+def Proc.error (p : Proc) : CmdErr :=
+  match p.spawn with
+  | some k => .spawn p.id k
+  | none => .exit p.id p.code
 
 def isWs (c : Char) : Bool :=
   c == ' ' || c == '\n' || c == '\t' || c == '\r' || c == '\x0b' || c == '\x0c'
@@ -87,21 +116,26 @@ structure Acc where
   deriving Repr, DecidableEq, Inhabited
 
 /-- `for c in cmd: self._run(c)` of `pypyr.subproc.Command.run`, with `_run` inlined:
-    spawn (the process *starts*), with `save` append the result **before**
-    `check_returncode()`, raise on a non-zero code (which leaves the loop). -/
+    `shlex.split` / `subprocess.run` raises when the instruction cannot be started (nothing started,
+    nothing appended, the exception leaves the loop); otherwise the process *starts* and runs to its
+    end, with `save` the result is appended **before** `check_returncode()`, which raises on a
+    non-zero status — positive or negative — (and leaves the loop). -/
 def runProcs (save text : Bool) : List Proc → Acc
   | [] => {}
   | p :: ps =>
-    let r := if save then [mkResultSync text p] else []
-    if p.code ≠ 0 then { started := [p.id], results := r, err := some ⟨p.id, p.code⟩ }
-    else
-      let rest := runProcs save text ps
-      { started := p.id :: rest.started, results := r ++ rest.results, err := rest.err }
+    match p.spawn with
+    | some k => { started := [], results := [], err := some (.spawn p.id k) }
+    | none =>
+      let r := if save then [mkResultSync text p] else []
+      if p.code ≠ 0 then { started := [p.id], results := r, err := some (.exit p.id p.code) }
+      else
+        let rest := runProcs save text ps
+        { started := p.id :: rest.started, results := r ++ rest.results, err := rest.err }
 
 def SCommand.exec (c : SCommand) : Acc := runProcs c.save c.text c.run
 
 /-- The loop of `CmdStep.run_step`: `for cmd in self.commands: try: cmd.run()
-    finally: results.extend(cmd.results)` — an exception leaves the loop after the `finally`. -/
+    finally: results.extend(cmd.results)` — *any* exception leaves the loop after the `finally`. -/
 def runCommands : List SCommand → Acc
   | [] => {}
   | c :: cs =>
@@ -139,37 +173,46 @@ def runSerial (cs : List SCommand) : SerialObs :=
 
 /-! ### Declarative vocabulary for the serial theorems -/
 
-/-- A process together with the `save`/`text` setting of the command it belongs to. -/
+/-- An instruction together with the `save`/`text` setting of the command it belongs to. -/
 structure Decl where
   proc : Proc
   save : Bool
   text : Bool
   deriving Repr, DecidableEq, Inhabited
 
-/-- All processes of the step in declaration order. -/
+/-- All instructions of the step in declaration order. -/
 def declsOf : List SCommand → List Decl
   | [] => []
   | c :: cs => c.run.map (fun p => ⟨p, c.save, c.text⟩) ++ declsOf cs
 
-/-- Declaration prefix up to **and including** the first process with a non-zero exit code. -/
+/-- The instructions *attempted*: declaration prefix up to **and including** the first one that
+    `stops` (non-zero exit status, or cannot be started). -/
 def takeThrough : List Proc → List Proc
   | [] => []
-  | p :: ps => if p.code ≠ 0 then [p] else p :: takeThrough ps
+  | p :: ps => if p.stops then [p] else p :: takeThrough ps
 
 /-- The same on declarations. -/
 def takeThroughD : List Decl → List Decl
   | [] => []
-  | d :: ds => if d.proc.code ≠ 0 then [d] else d :: takeThroughD ds
+  | d :: ds => if d.proc.stops then [d] else d :: takeThroughD ds
 
-/-- First process with a non-zero exit code. -/
+/-- The declarations whose process existed: the attempted ones that could be started
+    (only the last attempted one can be unstartable). -/
+def ranD (ds : List Decl) : List Decl := (takeThroughD ds).filter (·.proc.ran)
+
+/-- The instructions of a lane whose process existed. -/
+def ranP (ps : List Proc) : List Proc := (takeThrough ps).filter Proc.ran
+
+/-- The error of the first instruction that `stops`. -/
 def firstFail : List Proc → Option CmdErr
   | [] => none
-  | p :: ps => if p.code ≠ 0 then some ⟨p.id, p.code⟩ else firstFail ps
+  | p :: ps => if p.stops then some p.error else firstFail ps
 
 /-! ## Concurrent steps: `cmds`, `shells` -/
 
 /-- One element of a `run:` list of `pypyr.aio.subproc.Command`: an instruction, or a
-    sub-list that `_run` executes serially (breaking at the first non-zero code). -/
+    sub-list that `_run` executes serially (breaking at the first non-zero status; an exception out
+    of `_spawn` is appended to the sub-list's results and ends it). -/
 inductive Entry where
   | one (p : Proc)
   | serial (ps : List Proc)
@@ -199,18 +242,27 @@ def mkResultAsync (save text : Bool) (p : Proc) : Result :=
     else ⟨p.id, p.code, .bytes p.out, .bytes p.err⟩
   else ⟨p.id, p.code, .none, .none⟩
 
-/-- A lane: one unit of concurrency (a coroutine `Command._run(c)`): the processes
-    already finished, the one running, the ones not started. -/
+/-- A lane: one unit of concurrency (a coroutine `Command._run(c)`): the instructions dealt with
+    (the processes that finished and, last, the one that could not be started), the process running,
+    the instructions not reached. Invariant of every reachable lane: the running one is startable. -/
 structure Lane where
   done : List Proc
   cur  : Option Proc
   todo : List Proc
   deriving Repr, DecidableEq, Inhabited
 
-/-- A coroutine at its first suspension point: the first process is running. -/
-def Lane.start : List Proc → Lane
-  | [] => ⟨[], none, []⟩
-  | p :: ps => ⟨[], some p, ps⟩
+/-- `await self._spawn(next instruction)`: when it cannot be started the exception ends the coroutine
+    (`results.append(ex)` in a sub-list; `return_exceptions=True` / `result = ex` otherwise) —
+    recorded in `done`, nothing after it is reached; otherwise it is now running. -/
+def launch (done : List Proc) : List Proc → Lane
+  | [] => ⟨done, none, []⟩
+  | q :: qs =>
+    match q.spawn with
+    | some _ => ⟨done ++ [q], none, qs⟩
+    | none => ⟨done, some q, qs⟩
+
+/-- A coroutine at its first suspension point: the first process is running (if it could be started). -/
+def Lane.start (ps : List Proc) : Lane := launch [] ps
 
 inductive Event where
   | start (id : Nat)
@@ -218,15 +270,19 @@ inductive Event where
   deriving Repr, DecidableEq, Inhabited
 
 /-- The running process of the lane exits: `results.append(result)`, then
-    `if result.returncode: break`, else the next process of the sub-list is spawned. -/
+    `if result.returncode: break` (any non-zero status, negative included), else the next
+    instruction of the sub-list is spawned. -/
 def Lane.complete (l : Lane) : Lane :=
   match l.cur with
   | none => l
   | some p =>
     if p.code ≠ 0 then ⟨l.done ++ [p], none, l.todo⟩
-    else match l.todo with
-      | [] => ⟨l.done ++ [p], none, []⟩
-      | q :: qs => ⟨l.done ++ [p], some q, qs⟩
+    else launch (l.done ++ [p]) l.todo
+
+/-- Start event of the next instruction, if it can be started (an unstartable one leaves no trace). -/
+def launchEvents : List Proc → List Event
+  | [] => []
+  | q :: _ => if q.spawn.isSome then [] else [.start q.id]
 
 /-- Events caused by that exit. -/
 def Lane.completeEvents (l : Lane) : List Event :=
@@ -234,9 +290,7 @@ def Lane.completeEvents (l : Lane) : List Event :=
   | none => []
   | some p =>
     if p.code ≠ 0 then [.fin p.id]
-    else match l.todo with
-      | [] => [.fin p.id]
-      | q :: _ => [.fin p.id, .start q.id]
+    else .fin p.id :: launchEvents l.todo
 
 /-- Let the lane run to its end (every running process exits as soon as it is running). -/
 def drainFrom (done : List Proc) : Option Proc → List Proc → Lane
@@ -244,7 +298,9 @@ def drainFrom (done : List Proc) : Option Proc → List Proc → Lane
   | some p, [] => ⟨done ++ [p], none, []⟩
   | some p, q :: qs =>
     if p.code ≠ 0 then ⟨done ++ [p], none, q :: qs⟩
-    else drainFrom (done ++ [p]) (some q) qs
+    else match q.spawn with
+      | some _ => ⟨done ++ [p] ++ [q], none, qs⟩
+      | none => drainFrom (done ++ [p]) (some q) qs
 
 def Lane.drain (l : Lane) : Lane := drainFrom l.done l.cur l.todo
 
@@ -253,7 +309,9 @@ def drainEventsFrom : Option Proc → List Proc → List Event
   | some p, [] => [.fin p.id]
   | some p, q :: qs =>
     if p.code ≠ 0 then [.fin p.id]
-    else .fin p.id :: .start q.id :: drainEventsFrom (some q) qs
+    else match q.spawn with
+      | some _ => [.fin p.id]
+      | none => .fin p.id :: .start q.id :: drainEventsFrom (some q) qs
 
 def Lane.drainEvents (l : Lane) : List Event := drainEventsFrom l.cur l.todo
 
@@ -300,13 +358,24 @@ def drainAllEvents : List Lane → List Event
 
 def startEvents : List (List Proc) → List Event
   | [] => []
-  | [] :: ls => startEvents ls
-  | (p :: _) :: ls => .start p.id :: startEvents ls
+  | ps :: ls => launchEvents ps ++ startEvents ls
 
-/-- A result slot of `Command._results`: a result, or the list a serial sub-list returns. -/
-inductive Slot where
+/-- What the coroutine of an instruction leaves behind: a `SubprocessResult`, or the exception
+    raised when it could not be started. -/
+inductive Item where
   | res (r : Result)
-  | sub (rs : List Result)
+  | exc (id : Nat) (kind : SpawnKind)
+  deriving Repr, DecidableEq, Inhabited
+
+def mkItem (save text : Bool) (p : Proc) : Item :=
+  match p.spawn with
+  | some k => .exc p.id k
+  | none => .res (mkResultAsync save text p)
+
+/-- A slot of `Command._results`: one item, or the list a serial sub-list returns. -/
+inductive Slot where
+  | one (i : Item)
+  | sub (is : List Item)
   deriving Repr, DecidableEq, Inhabited
 
 /-- Re-assemble `Command._results` of one command from its finished lanes (consumes as many
@@ -316,22 +385,27 @@ def entrySlots (save text : Bool) : List Entry → List Lane → List Slot × Li
   | _ :: _, [] => ([], [])
   | .one _ :: es, l :: ls =>
     let r := entrySlots save text es ls
-    ((l.done.map (fun p => Slot.res (mkResultAsync save text p))) ++ r.1, r.2)
+    ((l.done.map (fun p => Slot.one (mkItem save text p))) ++ r.1, r.2)
   | .serial _ :: es, l :: ls =>
     let r := entrySlots save text es ls
-    (Slot.sub (l.done.map (mkResultAsync save text)) :: r.1, r.2)
+    (Slot.sub (l.done.map (mkItem save text)) :: r.1, r.2)
 
 def commandSlots (c : ACommand) (ls : List Lane) : List Slot × List Lane :=
   match c.run with
   | .single p => entrySlots c.save c.text [.one p] ls
   | .many es => entrySlots c.save c.text es ls
 
-/-- `Command.parse_results` / `_parse_result`: flattened errors of the non-zero results. -/
+/-- `_parse_result` on one item: an exception is yielded as it is, a result yields a
+    `SubprocessError` when `returncode` is truthy (non-zero). -/
+def itemErrors : Item → List CmdErr
+  | .exc i k => [.spawn i k]
+  | .res r => if r.code ≠ 0 then [.exit r.id r.code] else []
+
+/-- `Command.parse_results` / `_parse_result`: flattened errors, in the order of the slots. -/
 def slotErrors : List Slot → List CmdErr
   | [] => []
-  | .res r :: ss => (if r.code ≠ 0 then [⟨r.id, r.code⟩] else []) ++ slotErrors ss
-  | .sub rs :: ss =>
-    (rs.filter (fun r => r.code ≠ 0)).map (fun r => (⟨r.id, r.code⟩ : CmdErr)) ++ slotErrors ss
+  | .one i :: ss => itemErrors i ++ slotErrors ss
+  | .sub is :: ss => is.flatMap itemErrors ++ slotErrors ss
 
 /-- The loop of `Commands.run` after `asyncio.run`: `_results.extend(cmd._results)` for the
     `save` commands, `errors.extend(cmd.parse_results())` for all of them. -/
@@ -349,8 +423,9 @@ structure AsyncObs where
   cmdOut  : Option (List Slot)     -- `context['cmdOut']` (set iff some command has `save`)
   deriving Repr, DecidableEq, Inhabited
 
+/-- The processes of a lane that existed: the ones dealt with that could be started, and the running one. -/
 def laneStarted (l : Lane) : List Nat :=
-  l.done.map (·.id) ++ (match l.cur with | some p => [p.id] | none => [])
+  (l.done.filter Proc.ran).map (·.id) ++ (match l.cur with | some p => [p.id] | none => [])
 
 /-- `AsyncCmdStep.run_step` under the given completion schedule. -/
 def runAsync (cs : List ACommand) (sched : List Nat) : AsyncObs :=
